@@ -149,14 +149,14 @@ def _module_ob(kind):
         E = sym.Engine(ctx, max_paths=20000, incremental=True)
         found = E.explore(h)
         seen = set()
-        for label, m, pc in found:
-            prog, where = h.state
+        for (label, m, pc), A in list(zip(found, E.autosnaps)):
+            prog, where = A["state"]
             cprog = choice.value_in_model(m, prog)
             key = (label, tuple(cprog))
             if label in seen:
                 continue
             seen.add(label)
-            ctx.report(label, {"program": cprog, "where": where, "expected": choice.value_in_model(m, h.want)}, replay_access)
+            ctx.report(label, {"program": cprog, "where": where, "expected": choice.value_in_model(m, A["want"])}, replay_access)
         if E.reached.get("parsed"):
             ctx.twins += 1
         else:
@@ -241,12 +241,12 @@ def _type_scope_ob(name, vary):
         E = sym.Engine(ctx, max_paths=20000, incremental=True)
         found = E.explore(h)
         seen = set()
-        for label, m, pc in found:
+        for (label, m, pc), A in list(zip(found, E.autosnaps)):
             if label in seen:
                 continue
             seen.add(label)
-            ctx.report(label, {"program": choice.value_in_model(m, h.prog),
-                               "expected": {k: choice.value_in_model(m, v) for k, v in h.want.items()}}, replay_type_access)
+            ctx.report(label, {"program": choice.value_in_model(m, A["prog"]),
+                               "expected": {k: choice.value_in_model(m, v) for k, v in A["want"].items()}}, replay_type_access)
         if E.reached.get("parsed"):
             ctx.twins += 1
         else:
